@@ -22,6 +22,7 @@ package seccomp
 
 import (
 	"fmt"
+	"math"
 	"runtime"
 	"syscall"
 	"unsafe"
@@ -60,6 +61,9 @@ func LoadFilter(filter Filter) error {
 	}
 
 	sockFilter := sockFilter(raw)
+	if len(sockFilter) > math.MaxUint16 {
+		return fmt.Errorf("failed loading seccomp filter: %d instructions do not fit a BPF program", len(sockFilter))
+	}
 	program := &syscall.SockFprog{
 		Len:    uint16(len(sockFilter)),
 		Filter: &sockFilter[0],
